@@ -731,6 +731,7 @@ pub static HIST: HistProp = HistProp {
     epoll_each_step: false,
     workers: 8,
     table: None,
+    extra: None,
 };
 
 // ------------------------------------------------------------------------------------------ free-running stress
